@@ -97,8 +97,9 @@ def cast (src dst : DType) (c : Cell) : Cell :=
 
 /-- Is the cell a legal item of the dtype? -/
 def validCell : DType → Cell → Bool
-  | .int true w, .i v => decide (-(2 ^ (8 * w - 1) : Int) ≤ v ∧ v < 2 ^ (8 * w - 1)) && decide (0 < w)
-  | .int false w, .i v => decide (0 ≤ v ∧ v < 2 ^ (8 * w))
+  | .int true w, .i v =>
+    decide (0 < w) && decide ((v < 0 ∧ v.natAbs ≤ 2 ^ (8 * w - 1)) ∨ (0 ≤ v ∧ v.natAbs < 2 ^ (8 * w - 1)))
+  | .int false w, .i v => decide (0 ≤ v ∧ v.natAbs < 2 ^ (8 * w))
   | .flt w, .f b => (w == 4 || w == 8) && decide (b < 2 ^ (8 * w))
   | .str w, .s cs => decide (cs.length ≤ w) && cs.all (fun c => decide (c < 2 ^ 32)) && cs.getLast? != some 0
   | _, _ => false
@@ -127,7 +128,7 @@ def leBytes : Nat → Nat → List Nat
 /-- The bytes of one item in a numpy buffer: two's complement little-endian integers, IEEE bit
 patterns, UTF-32-LE code points padded with NULs to the column width. -/
 def enc : DType → Cell → List Nat
-  | .int _ w, .i v => leBytes w (v % (2 ^ (8 * w) : Int)).toNat
+  | .int _ w, .i v => leBytes w (if 0 ≤ v then v.toNat else 2 ^ (8 * w) - v.natAbs)   -- two's complement
   | .flt w, .f b => leBytes w b
   | .str w, .s cs => ((cs ++ List.replicate (w - cs.length) 0).take w).flatMap (leBytes 4)
   | _, _ => []
